@@ -222,10 +222,10 @@ def unsupported_names(v, inst):
         for e in v.macNames:
             if e not in ('sha', 'md5'):
                 out.append(('macNames', e + ' (needs TLS 1.2)'))
-    if isinstance(v.maxVersion, tuple) and v.maxVersion < (3, 4):
+    if isinstance(v.maxVersion, tuple) and isinstance(v.minVersion, tuple):
         for e in v.versions:
-            if e >= (3, 4):
-                out.append(('versions', repr(e)))
+            if not v.minVersion <= e <= v.maxVersion:
+                out.append(('versions', repr(e) + ' outside [minVersion, maxVersion]'))
     return out
 
 
